@@ -29,7 +29,9 @@ func runOriginated(t *rapid.T, rec *evid.Rec, id string) {
 		key = &k
 	}
 	sys := byte(rapid.IntRange(1, 255).Draw(t, "sys"))
-	comp := byte(rapid.IntRange(0, 255).Draw(t, "comp"))
+	comp := byte(rapid.OneOf(rapid.IntRange(0, 255), rapid.SampledFrom([]int{0, 1, 1, 191})).Draw(t, "comp"))
+	// what kind of system the node says it is (heartbeat module) has nothing to do with the ids it writes under
+	hbType := rapid.SampledFrom([]int{0, 0, 1, 6, 18, 18, 27}).Draw(t, "heartbeat_system_type")
 	nmsg := rapid.OneOf(rapid.IntRange(10, 120), rapid.IntRange(450, 800)).Draw(t, "nmsg")
 	writers := rapid.IntRange(1, 3).Draw(t, "writers")
 	hb := rapid.Bool().Draw(t, "heartbeat")
@@ -40,15 +42,16 @@ func runOriginated(t *rapid.T, rec *evid.Rec, id string) {
 	if rapid.IntRange(0, 2).Draw(t, "incoming_key") == 0 {
 		inKey = &[32]byte{0x1E, 0x2E, 3}
 	}
-	desc := fmt.Sprintf("links=%d v2=%v keyed=%v incomingKey=%v sys=%d comp=%d messages=%d writers=%d heartbeat=%v streamreq=%v", nch, v2, key != nil, inKey != nil, sys, comp, nmsg, writers, hb, sr)
+	desc := fmt.Sprintf("links=%d v2=%v keyed=%v incomingKey=%v sys=%d comp=%d messages=%d writers=%d heartbeat=%v(system type %d) streamreq=%v", nch, v2, key != nil, inKey != nil, sys, comp, nmsg, writers, hb, hbType, sr)
 	pipes := make([]*sim.Pipe, nch)
 	var endpoints []gomavlib.EndpointConf
 	for i := range pipes {
 		pipes[i] = sim.NewPipe()
 		endpoints = append(endpoints, gomavlib.EndpointCustom{ReadWriteCloser: pipes[i]})
 	}
+	outKeyObj, inKeyObj := keyOf(key), keyOf(inKey) // the application's key objects: it may use them for other nodes, now or later
 	n := &gomavlib.Node{Endpoints: endpoints, Dialect: ardupilotmega.Dialect, OutVersion: gomavlib.V1, OutSystemID: sys, OutComponentID: comp,
-		OutKey: keyOf(key), InKey: keyOf(inKey), HeartbeatDisable: !hb, HeartbeatPeriod: 3 * time.Millisecond, StreamRequestEnable: sr}
+		OutKey: outKeyObj, InKey: inKeyObj, HeartbeatDisable: !hb, HeartbeatPeriod: 3 * time.Millisecond, StreamRequestEnable: sr, HeartbeatSystemType: hbType}
 	if v2 {
 		n.OutVersion = gomavlib.V2
 	}
@@ -106,6 +109,11 @@ func runOriginated(t *rapid.T, rec *evid.Rec, id string) {
 	time.Sleep(8 * time.Millisecond)
 	closeNode(n, bound) //nolint:errcheck
 	r.WaitClosed(bound)
+	if (outKeyObj != nil && [32]byte(*outKeyObj) != *key) || (inKeyObj != nil && [32]byte(*inKeyObj) != *inKey) {
+		msg := fmt.Sprintf("%s\nafter Node.Close the key objects the application had handed to the node hold other bytes than before (outgoing: %v, incoming: %v): they are the application's, other nodes may be using them", desc, outKeyObj, inKeyObj)
+		evid.ReplayNote(id, "node-originated", msg)
+		t.Fatalf("%s", msg)
+	}
 	after := since2015(time.Now())
 	wantComp := comp
 	if comp == 0 {
